@@ -100,6 +100,42 @@ def hostile_scenarios(r):
     return out
 
 
+def socket_level(v, wd):
+    """the real binary in forwarding mode against real sockets: an upstream that stays silent, and one that keeps sending
+    datagrams with the wrong ID every 2 s.  Each transport attempt is limited to 5 s, so the client must have its
+    (SERVFAIL) reply within 5 s (UDP) + 5 s (TCP) + slack.  This is a wall-clock observation; the bound is the
+    specification's (two transports x 5 s), the comparison is done by the driver."""
+    import threading
+    import time
+    import serverdrv as sd
+    import c19
+    results = {}
+
+    def one(behaviour):
+        up = sd.MockUpstream({}, behaviour=behaviour)
+        try:
+            srv = sd.Server(wd, ["--forward-address", "127.0.0.1:%d" % up.port])
+            try:
+                t0 = time.time()
+                rep = sd.udp_exchange(srv.port, c19.question(["www", "example", "com"], 1, 77), wait=20.0)
+                results[behaviour] = (time.time() - t0, rep["present"], rep["bytes"][3] & 15 if rep["present"] else -1, srv.alive())
+            finally:
+                srv.stop()
+        finally:
+            up.stop()
+    ths = [threading.Thread(target=one, args=(b,)) for b in ("silent", "wrong_id_stream")]
+    for t in ths:
+        t.start()
+    for t in ths:
+        t.join()
+    v.notes["socket_level_seconds"] = {k: round(x[0], 2) for k, x in results.items()}
+    for k, (dt, present, rcode, alive) in results.items():
+        v.evaluations += 1
+        if not present or dt > 12.0 or not alive:
+            v.violation("socket level: a forwarded query was not answered within 5 s per transport attempt",
+                        {"upstream_behaviour": k, "seconds": round(dt, 2), "reply_present": present, "server_alive": alive})
+
+
 def run(tier):
     v = Verdict(PID, tier, "fault_enumeration")
     v.rule = ("Fault enumeration over recorded resolutions: seeded well-behaved universes (replies from the specification's "
@@ -158,6 +194,7 @@ def run(tier):
         v.sample({"mode": ln["mode"], "question": ln["runs"][0]["q"], "result": ln["runs"][0]["result"],
                   "virtual_ms": ln["runs"][0]["t1"] - ln["runs"][0]["t0"],
                   "exchanges": [[e["t"], e["addr"], "tcp" if e["tcp"] else "udp", e["faultkind"]] for e in ln["runs"][0]["exchanges"]]})
+    socket_level(v, wd)
     v.distinct = v.evaluations
     if longest < 59000 or not any(k.endswith("Timeout") for k in outcomes):
         raise vlib.ToolError("vacuous run: no resolution was slowed down")
